@@ -3,7 +3,9 @@
    input   `<fuel> <tok> <tok> ...`     tok = `<k><b><s>.<line>.<hex of the spelling>`
            k = i|n|s|p|o (ident, pp-number, string, punctuator, other), b = at_bol, s = has_space
    output  `ok <tok> ...` (tok = `<k><b><s>.<hex>`)  |  `err <constructor of PP.Err>`
-   sub-commands: `expand` (model of preprocess2 from the table of init_macros), `spec` (Spec.PPSpec.expand) -/
+   sub-commands: `expand` (model of preprocess2 from the table of init_macros), `spec` (Spec.PPSpec.expand),
+   `expandh` (the model again, every output token with its hide set: `ok <hex spelling>@<name>,<name>,... ...` — the
+   line format of tools/harness/pp_harness.c, which prints the same for the real preprocess2) -/
 import ChibiVerif.Model.PP
 import ChibiVerif.Spec.PPSpec
 
@@ -89,5 +91,29 @@ partial def ppLoop (spec : Bool) (h : IO.FS.Stream) : IO UInt32 := do
   ppLoop spec h
 
 def ppMain (spec : Bool) : IO UInt32 := do ppLoop spec (← IO.getStdin)
+
+/-! `expandh`: spellings and hide sets (names in the order of the C linked list) -/
+
+def showTokH (t : Tok) : String := hex t.text ++ "@" ++ ",".intercalate t.hide
+
+def runLineH (line : String) : String :=
+  let ws := (line.trimAscii.toString.splitOn " ").filter (· ≠ "")
+  match ws with
+  | [] => "bad-op"
+  | f :: rest =>
+    match f.toNat?, rest.mapM parseTok with
+    | some fuel, some ts =>
+      match preprocess fuel ts with
+      | .ok out => " ".intercalate ("ok" :: out.map showTokH)
+      | .error e => "err " ++ errName e
+    | _, _ => "bad-op"
+
+partial def ppLoopH (h : IO.FS.Stream) : IO UInt32 := do
+  let line ← h.getLine
+  if line.isEmpty then return 0
+  IO.println (runLineH line)
+  ppLoopH h
+
+def ppMainH : IO UInt32 := do ppLoopH (← IO.getStdin)
 
 end ChibiVerif.Driver
